@@ -278,7 +278,11 @@ func (e *kvElection) attemptAcquireWithRetry(ctx context.Context) {
 				)...,
 			)
 			verifNote(e, "round_exhausted", 0)
-			e.becomeFollower()
+			if !e.IsLeader() {
+				// giving up only concerns a candidate; another attempt of this
+				// instance may have won in the meantime
+				e.becomeFollower()
+			}
 			return
 		}
 
@@ -301,6 +305,11 @@ func (e *kvElection) attemptAcquireWithRetry(ctx context.Context) {
 }
 
 func (e *kvElection) attemptAcquire() error {
+	if e.IsLeader() {
+		// already leading: a leftover or concurrent attempt must not start a second term
+		return nil
+	}
+
 	token := uuid.New().String()
 
 	payload := leadershipPayload{
